@@ -146,6 +146,15 @@ def run(repo: Repo, tier: str) -> Report:
         "lower-triangular band L is unique and is characterised row by row by the three identities checked here",
         "lemma: W + lambda*D'D is positive definite when >= 2 weights are positive and lambda > 0 (no zero pivot)",
     ]
+    fn0 = repo.func(MOD, "ws2d")
+    pre = [n for n in ast.walk(fn0) if isinstance(n, (ast.If, ast.While, ast.Try, ast.IfExp, ast.With, ast.Break, ast.Continue, ast.Raise))]
+    rets = [n for n in ast.walk(fn0) if isinstance(n, ast.Return)]
+    if pre or len(rets) != 1:
+        bad = pre[0] if pre else rets[0]
+        rep.ob("R-STRAIGHT", FILE, "ws2d", "the solver has no data- or parameter-dependent branch or early exit (one algorithm for every input)", False,
+               f"`{norm_stmt(bad)}` special-cases some inputs ({len(rets)} return statement(s)): the result is no longer the solution of "
+               f"(W + lambda D'D) z = W y for all of them", bad)
+        return rep
     fn, sc, names, params = analyse(repo)
     ref = reference_classes()
     rep.analysed = {"function": f"{FILE}:ws2d", "stores": len(sc.stores), "regions": [r.label() for r in sc.regions],
